@@ -225,6 +225,37 @@ def qfun(x: int) -> bool:
         h(q)
     result("x", x)
     return measure(q)
+
+
+# the module gives its OWN meaning to a name the comptime tracer shadows while it runs
+@guppy
+def len(x: int) -> int:
+    return x + 100
+
+
+@guppy
+def uses_len(x: int) -> int:
+    return len(x)
+
+
+# a loaded pytket circuit with a symbolic parameter (the `angle` type is looked up per session)
+from pytket import Circuit as _Circuit
+from sympy import Symbol as _Symbol
+from guppylang.std.angles import angle
+
+_circ = _Circuit(1)
+_circ.Rz(_Symbol("a"), 0)
+pk_loaded = guppy.load_pytket("pk_loaded", _circ, use_arrays=False)
+
+
+@guppy
+def uses_circ(q: qubit) -> None:
+    pk_loaded(q, angle(0.5))
+
+
+@guppy
+def uses_angle(a: angle) -> angle:
+    return a + angle(0.25)
 '''
 
 # name -> expected fresh-session behaviour (from the language definition)
@@ -241,7 +272,11 @@ POOL = [
     ("ct", "ok"), ("closure", "ok"),
     ("rec_nested", "ok"), ("spin", "ok"), ("spin_caller", "ok"),
     ("calls_bad_sig", "check-error"), ("ct_interrupt", "compile-exc"), ("qfun", "ok"),
+    ("uses_len", "ok"), ("uses_circ", "ok"), ("uses_angle", "ok"),
 ]
+# fourth quick phase: state that lives OUTSIDE the engine - the module's own binding of a name the tracer shadows
+# (user of it / a comptime function), and types resolved lazily per session (loaded pytket circuit with a parameter)
+LATE3_DEFS = ("uses_len", "ct", "uses_circ", "uses_angle")
 # third quick phase: a caller of a definition whose SIGNATURE fails to parse (state kept by the parser
 # across a failed parse), a compile aborted by a BaseException that is not an Exception after a
 # side-effecting operation was emitted (state restored only on `except Exception` paths), and a function
@@ -316,6 +351,7 @@ REF: dict[int, dict] = {}        # op index -> reference observation (full)
 
 def init(root) -> None:
     from vlib import gload
+    import checks.c26  # noqa: F401 - installs the tket.circuit.Tk2Circuit alias the pytket loader of /repo needs
     _M["mod"] = gload.load(POOL_SRC, name="c11pool")
 
 
@@ -464,10 +500,12 @@ def phases(quick: bool) -> list[tuple[str, list[int], int]]:
     over its operations up to its depth."""
     late = [i for i, (_w, nme) in enumerate(OPS) if nme in LATE_DEFS]
     late2 = [i for i, (_w, nme) in enumerate(OPS) if nme in LATE2_DEFS]
+    late3 = [i for i, (_w, nme) in enumerate(OPS) if nme in LATE3_DEFS]
     if quick:
-        return [("quick-pool", list(range(2 * QUICK_DEFS)), 2), ("late-pool", late, 2), ("late-pool-2", late2, 2)]
+        return [("quick-pool", list(range(2 * QUICK_DEFS)), 2), ("late-pool", late, 2), ("late-pool-2", late2, 2), ("late-pool-3", late3, 2)]
     core = [i for i, (_w, nme) in enumerate(OPS) if nme in CORE_DEFS]
-    return [("full-pool", list(range(len(OPS))), 2), ("core-pool", core, 3), ("late-pool", late, 3), ("late-pool-2", late2, 3)]
+    return [("full-pool", list(range(len(OPS))), 2), ("core-pool", core, 3), ("late-pool", late, 3), ("late-pool-2", late2, 3),
+            ("late-pool-3", late3, 3)]
 
 
 def run(ctx) -> dict:
